@@ -40,6 +40,7 @@ from harness import simnet as S
 from harness.simworld import run_scenario
 
 PROBE_PREFIX = "probe"
+GEN_STRIDE = 50               # model object number of generation g of object name o: o + 50 * g
 WORKER_CALLER_BASE = 100      # the worker thread of object o, when it makes calls itself, is caller number 100 + o
 _PROBE = None
 
@@ -310,6 +311,11 @@ def taps():
                 via = None if conn is None else (conn.peer_context_name, conn._message_router.context_name)
                 _log("lookup", _me(), k, r is not None, via)
             return r
+
+        def __setitem__(self, key, value):
+            dict.__setitem__(self, key, value)
+            if str(key).startswith(PROBE_PREFIX):
+                _log("register", oid_of(key))
 
         def __delitem__(self, key):
             dict.__delitem__(self, key)
@@ -609,6 +615,33 @@ def taps():
         return (executor if executor is not None else _MExecutor()).submit(fn, *args)
 
     patch(S.SimLoop, "run_in_executor", run_in_executor)
+
+    class _Handle:
+        def __init__(self):
+            self._cancelled = False
+
+        def cancel(self):
+            self._cancelled = True
+
+        def cancelled(self):
+            return self._cancelled
+
+    def call_later(self, delay, cb, *args):
+        """timer of the event loop on the virtual clock: the callback is queued on the loop when the delay has elapsed"""
+        h = _Handle()
+
+        def fire():
+            if not h._cancelled and not self.closed:
+                self.call_soon_threadsafe(cb, *args)
+        _MTimer(max(0.0, delay), fire).start()
+        return h
+
+    def call_at(self, when, cb, *args):
+        return call_later(self, when - D.TIME_SHIM.monotonic(), cb, *args)
+
+    patch(S.SimLoop, "call_later", call_later)
+    patch(S.SimLoop, "call_at", call_at)
+    patch(S.SimLoop, "time", lambda self: D.TIME_SHIM.monotonic())
     patch(_cf, "ThreadPoolExecutor", _MExecutor)
     shim_saved = {n: D.THREADING_SHIM.__dict__.get(n, _ABSENT) for n in ("Thread", "Timer")}
     D.THREADING_SHIM.Thread = _MThread
@@ -709,7 +742,8 @@ def gen_scenario(rng, big: bool = False) -> dict:
     q = `is_locked()`;  L/U/F = `lock()` / `unlock()` / `force_unlock()`;  and [w, j] = wait for the j-th non-blocking call.
     `via` = the context whose proxy is used (a thread may alternate between a local and a peer proxy of one object).
     Per object at most one (caller, via) (the lock owner) uses L/U/F, as a well-formed state machine.
-    `removals` = [[o, delay], …]: a remover thread removes object o from its context after `delay` scheduler steps, while
+    `removals` = [[o, delay] or [o, delay, again], …]: a server-side thread removes object o from its context after `delay`
+    scheduler steps (and, with `again`, creates it again under the same name `again` steps later), while
     the callers are running."""
     K = rng.choice([1, 2, 2, 3, 3])
     n_obj = rng.choice([1, 1, 2, 2])
@@ -811,7 +845,7 @@ def gen_scenario(rng, big: bool = False) -> dict:
     if rng.random() < 0.25:
         for o in range(n_obj):
             if rng.random() < 0.7:
-                removals.append([o, rng.choice([0, 5, 20, 60, 150, 400])])
+                removals.append([o, rng.choice([0, 5, 20, 60, 150, 400])] + ([rng.choice([0, 5, 30, 100])] if rng.random() < 0.4 else []))
     return sanitize({"contexts": K, "objects": homes, "objtypes": objtypes, "callers": callers, "removals": removals,
                      "share": rng.random() < 0.25, "eager": rng.choice([0.0, 0.0, 0.3])})
 
@@ -873,11 +907,14 @@ def make_body(scn):
         servers = set(homes)
         ctxs = [w.context(f"c{k}", server=(k in servers)) for k in range(K)]
         own_proxy = {}
-        for o, h in enumerate(homes):
+
+        def make_object(o):
             if objtypes[o] == "instr":
-                own_proxy[o] = ctxs[h].make_instrument(f"{PROBE_PREFIX}{o}", PC["instr"], o)
-            else:
-                own_proxy[o] = ctxs[h].make_rpc_object(f"{PROBE_PREFIX}{o}", PC["obj"], o)
+                return ctxs[homes[o]].make_instrument(f"{PROBE_PREFIX}{o}", PC["instr"], o)
+            return ctxs[homes[o]].make_rpc_object(f"{PROBE_PREFIX}{o}", PC["obj"], o)
+
+        for o, h in enumerate(homes):
+            own_proxy[o] = make_object(o)
         RUN.homes = list(homes)
         need = {(op_via(c, op), op[1]) for c in scn["callers"] for op in c["prog"] if op[0] in CALL_KINDS}
         for c in scn["callers"]:
@@ -1044,13 +1081,18 @@ def make_body(scn):
                 return bad
             return run
 
-        def remover_fn(o, delay):
+        def remover_fn(o, delay, again=None):
             def run():
                 for _ in range(delay):
                     D.SCHED.yield_point("remover.wait")
                 _log("removing", o)
                 ctxs[homes[o]].remove_rpc_object(own_proxy[o])
                 _log("removed", o)
+                if again is not None:          # … and created again under the same name, by this server-side thread
+                    for _ in range(again):
+                        D.SCHED.yield_point("remover.wait")
+                    own_proxy[o] = make_object(o)
+                    _log("recreated", o)
                 return []
             return run
 
@@ -1080,7 +1122,7 @@ def make_body(scn):
                 ctxs[cal["ctx"]]._message_router._thread.run_in_thread(cb)
             else:
                 ths.append(w.spawn(fn, f"caller{ci}"))
-        ths += [w.spawn(remover_fn(o, delay), f"remover{o}") for o, delay in scn.get("removals", [])]
+        ths += [w.spawn(remover_fn(r[0], r[1], r[2] if len(r) > 2 else None), f"remover{r[0]}") for r in scn.get("removals", [])]
         for t in ths:
             t.join()
         for tp in tasks:
@@ -1162,8 +1204,50 @@ def to_lines(scn, events):
     via = {}
     fin = collections.defaultdict(lambda: {"executed": [], "by": [], "rejected": [], "refused": []})
     keyed = ("issue", "enqR", "send", "lookup", "push-refused", "fifo+", "fifo-", "reject", "exec-enter", "exec-exit")
-    for ev in events:
+    # The model's objects are manager INSTANCES.  A name that is removed and created again is a sequence of instances:
+    # generation g of name o is model object o + GEN_STRIDE * g.  A request belongs to the instance that is current when
+    # its handler is looked up (if it never gets that far: when it is issued).
+    starts = collections.defaultdict(list)
+    registers = collections.defaultdict(list)
+    first_lookup, issued_at = {}, {}
+    for idx, ev in enumerate(events):
+        if ev[0] == "start":
+            starts[ev[1]].append(idx)
+        elif ev[0] == "register":
+            registers[ev[1]].append(idx)
+        elif ev[0] == "lookup" and ev[2] != "?":
+            first_lookup.setdefault(ev[2], idx)
+        elif ev[0] == "issue" and ev[2] != "?":
+            issued_at.setdefault(ev[2], idx)
+
+    def gen_at(o, idx):
+        return max(0, sum(1 for p in starts.get(o, []) if p < idx) - 1)
+
+    def inst(o, idx):
+        return o + GEN_STRIDE * gen_at(o, idx)
+
+    def mkey(key, idx):
+        # a request finds the instance that is REGISTERED as message handler when it is looked up
+        at = first_lookup.get(key, issued_at.get(key, idx))
+        g = max(0, sum(1 for p in registers.get(key[2], []) if p < at) - 1)
+        return (key[0], key[1], key[2] + GEN_STRIDE * g, key[3])
+
+    for o in sorted(starts):
+        for g in range(1, len(starts[o])):
+            lines.append(f"object {o + GEN_STRIDE * g} {homes[o]}"); outs.append("ok")
+
+    for idx, ev in enumerate(events):
         t = ev[0]
+        if t in keyed and ev[2] != "?":
+            ev = ev[:2] + (mkey(ev[2], idx),) + ev[3:]
+            if t in ("enqR", "fifo+", "fifo-", "reject"):
+                snap_i = 4 if t == "enqR" else 3
+                ev = ev[:snap_i] + ([x if x == "?" else mkey(x, idx) for x in ev[snap_i]],) + ev[snap_i + 1:]
+        elif t in ("start", "unregister", "stopmark", "shutdown"):
+            # `start` is logged after the new instance exists: it belongs to the generation it creates
+            ev = (t, inst(ev[1], idx + 1 if t == "start" else idx)) + ev[2:]
+        elif t in ("leave", "enter", "exit"):
+            ev = ev[:2] + (inst(ev[2], idx),) + ev[3:]
         if t in keyed and ev[2] == "?":
             # a request to the object that no scripted call accounts for
             lines.append(f"unaccounted-request-at-{t}"); outs.append("ok")
@@ -1185,7 +1269,7 @@ def to_lines(scn, events):
             if issuer.get(key) == ev[1] and v is None:
                 lines.append(f"lookL {_rq(key)}")
             else:
-                k, d = (cidx(v[0]), cidx(v[1])) if v else (key[1], homes[key[2]] if key[2] < len(homes) else 99)
+                k, d = (cidx(v[0]), cidx(v[1])) if v else (key[1], homes[key[2] % GEN_STRIDE] if key[2] % GEN_STRIDE < len(homes) else 99)
                 lines.append(f"lookW {k} {d} {_rq(key)}")
             outs.append("ok held inv" if found else "ok refused inv")
             if not found:
@@ -1196,7 +1280,7 @@ def to_lines(scn, events):
             if issuer.get(key) == ev[1] and v is None:
                 lines.append(f"pushL {_rq(key)}")
             else:
-                d = cidx(v[1]) if v else (homes[key[2]] if key[2] < len(homes) else 99)
+                d = cidx(v[1]) if v else (homes[key[2] % GEN_STRIDE] if key[2] % GEN_STRIDE < len(homes) else 99)
                 lines.append(f"pushW {d} {_rq(key)}")
             if t == "fifo+":
                 outs.append(f"ok fifo={_fmt(ev[3])} inv")
@@ -1229,7 +1313,7 @@ def to_lines(scn, events):
             lines.append(f"leave {tid(ev[1])} {ev[2]}"); outs.append("ok inv")
         elif t in ("fifo?", "tap-missing"):
             lines.append(f"unknown-operation {ev[-1]}".replace(" ", "_")); outs.append("ok")
-    for o in range(len(homes)):
+    for o in sorted({o + GEN_STRIDE * g for o in range(len(homes)) for g in range(max(1, len(starts.get(o, []))))}):
         lines.append(f"final {o}")
         f = fin[o]
         outs.append(f"executed={_fmt(f['executed'])} by={','.join(map(str, f['by'])) if f['by'] else '-'} cur=- "
@@ -1253,7 +1337,8 @@ def oracle(scn, events):
     around each proxy call (their own issue order and what they got back) and on the remover's `removed` record.
     The probe's own depth counter is a second witness for overlaps.
 
-    `order` is per (caller thread, proxy context, object).  A violation of the order per (caller thread, object) that is
+    `order` is per (caller thread, proxy context, object NAME): across removal and re-creation of an object under the
+    same name the executed calls of a route must still appear in issue order (calls answered with an error are skipped).  A violation of the order per (caller thread, object) that is
     *not* a violation per route (`order-across-routes`) is reported only if nothing else is wrong."""
     homes = scn["objects"]
 
@@ -1271,6 +1356,7 @@ def oracle(scn, events):
     started = set()
     threads = collections.defaultdict(list)
     removed = set()
+    removable = {r[0] for r in scn.get("removals", [])}
     worker = {}
     in_hook = collections.defaultdict(bool)
     secondary = None
@@ -1295,7 +1381,12 @@ def oracle(scn, events):
                         f"event {i}: {what}() of object {o} runs in thread {th} outside the worker's handling of that "
                         f"request (worker is handling: {cur})")
         elif ev[0] == "start":
-            worker[ev[1]] = ev[2]
+            o = ev[1]
+            if o in worker:           # the name was removed and is created again: a new instance with a new worker thread
+                threads[o] = []
+                removed.discard(o)
+                in_hook[o] = False
+            worker[o] = ev[2]
         elif ev[0] in ("hook-enter", "hook-exec"):
             # a life-cycle hook of the object (release_rpc_object) is code of the object like its methods: it must run in
             # the object's worker thread and never while a request of the object is executing
@@ -1341,11 +1432,15 @@ def oracle(scn, events):
                 return ("duplicate-execution", route(k, o), cls, f"event {i}: {key} ({what}) executed twice")
             seen.add(key)
             started.add(key)
-            if seq != nxt[(c, k, o)]:
+            exp = nxt[(c, k, o)]
+            if seq < exp or (seq > exp and o not in removable):
+                # executed after a later call of the same route — or, for an object that is never removed, with a gap.
+                # (For an object name that is removed (and possibly created again) calls answered with an error are
+                # skipped; should one of them execute later it is caught here as "after a later call".)
                 return ("order", route(k, o), cls,
                         f"event {i}: caller {c} via context {k} object {o}: call #{seq} ({what}) executed when "
-                        f"#{nxt[(c, k, o)]} was next in issue order")
-            nxt[(c, k, o)] += 1
+                        f"#{exp} was next in issue order" + (" (a later call of this route was executed before it)" if seq < exp else ""))
+            nxt[(c, k, o)] = seq + 1
             g = called[key]
             if g < gnxt[(c, o)] and secondary is None:
                 secondary = ("order-across-routes", "mixed", "any",
@@ -1430,6 +1525,14 @@ FIXED_SCENARIOS_RAW = [
                  {"ctx": 0, "prog": [["b", 1], ["n", 0], ["n", 1], ["b", 0], ["n", 1]]}]},
     {"contexts": 1, "objects": [0], "removals": [[0, 0]],
      "callers": [{"ctx": 0, "prog": [["n", 0], ["n", 0], ["b", 0]]}, {"ctx": 0, "prog": [["b", 0], ["b", 0]]}]},
+    # the object is removed and created again under the same name while remote and local callers keep calling that name
+    {"contexts": 2, "objects": [0], "removals": [[0, 10, 5]],
+     "callers": [{"ctx": 1, "prog": [["n", 0], ["n", 0], ["n", 0], ["b", 0], ["n", 0], ["n", 0], ["b", 0], ["b", 0]]},
+                 {"ctx": 0, "prog": [["n", 0], ["b", 0], ["n", 0], ["b", 0], ["n", 0], ["b", 0]]}]},
+    {"contexts": 3, "objects": [0, 0], "objtypes": ["obj", "instr"], "removals": [[0, 0, 0], [1, 30, 30]],
+     "callers": [{"ctx": 1, "prog": [["n", 0], ["n", 1], ["n", 0], ["n", 1], ["b", 0], ["b", 1], ["n", 0], ["b", 1]]},
+                 {"ctx": 2, "prog": [["n", 1], ["n", 1], ["b", 0], ["n", 1], ["b", 1], ["n", 0], ["b", 0]]},
+                 {"ctx": 0, "prog": [["b", 1], ["n", 0], ["b", 0], ["n", 1], ["b", 1]]}]},
     # … with a long-running method in progress at the moment of remove_rpc_object (the release hook must wait for it)
     {"contexts": 2, "objects": [0, 0], "objtypes": ["obj", "instr"], "removals": [[0, 20], [1, 40]],
      "callers": [{"ctx": 0, "prog": [["k", 0], ["k", 1], ["k", 0], ["k", 1], ["n", 0], ["n", 1]]},
@@ -1699,6 +1802,7 @@ class C03(Prop):
                   sum(1 for e in events if e[0] == "fifo+" and len(e[3]) >= 2 and any(
                       x[0] == "exec-enter" and x[2] == e[2] and x[3].startswith("lock:") for x in events)))
         res.count("scenarios_with_object_removal", 1 if scn.get("removals") else 0)
+        res.count("objects_recreated_under_the_same_name", sum(1 for e in events if e[0] == "recreated"))
         res.count("scenarios_with_shared_proxies", 1 if scn.get("share") else 0)
         res.count("objects_of_type_instrument", sum(1 for t in scn.get("objtypes", []) if t == "instr"))
         for e in events:
